@@ -197,6 +197,16 @@ def impl_name(s, strict):
         return ("err", type(ex).__name__)
 
 
+def impl_name_default(s):
+    """service_type_name(s) with the `strict` argument left to its default"""
+    from zeroconf._utils.name import service_type_name
+
+    try:
+        return ("ok", service_type_name(s))
+    except Exception as ex:  # noqa: BLE001
+        return ("err", type(ex).__name__)
+
+
 def impl_ctor(type_, name):
     from zeroconf import ServiceInfo
 
@@ -237,7 +247,13 @@ def impl_dec(text):
 
 SVC_GOOD = ["_http", "_a", "_x-y", "_a1", "_1a", "_ipp-tls", "_Z", "_a" + "b" * 14, "_0-a-9"]
 PROTOS = ["_tcp", "_udp"]
-INST_GOOD = ["foo", "My Printer", "é", "日本語", "😀 office", "a.b", "a.b.c", "x" * 63, "é" * 31 + "x", "日" * 21, "😀" * 15 + "abc",
+# non-ASCII characters that turn INTO ASCII letters/digits under case mapping, case-insensitive matching, casefold or
+# Unicode digit tests: U+017F long s (upper -> S, re.I matches [a-z]), U+212A Kelvin sign (lower -> k, re.I matches),
+# U+0130 / U+0131 dotted/dotless i, U+00DF sharp s (casefold -> ss), U+FB01 fi ligature, fullwidth A, superscript two,
+# Arabic-Indic three.  None of them is a letter or digit of the service-name alphabet.
+CASEMAP = ["\u017f", "\u212a", "\u0130", "\u0131", "\u00df", "\ufb01", "\uff21", "\u00b2", "\u0663"]
+
+INST_GOOD = ["Kelvin \u212a", "\u017ftra\u00dfe \u0130\u0131", "foo", "My Printer", "é", "日本語", "😀 office", "a.b", "a.b.c", "x" * 63, "é" * 31 + "x", "日" * 21, "😀" * 15 + "abc",
              "_foo", "1", " ", "a=b", "_sub2", "sub", "_tcp", "x._tcp", "local", "A" * 62]
 
 
@@ -264,7 +280,7 @@ def gen_svc(rng, strict_hint):
         body[rng.randrange(n)] = "q"
     tags = []
     for _ in range(rng.choice([0, 1, 1, 1, 2, 2, 3])):
-        m = rng.choice(["lead-", "trail-", "dbl-", "noletter", "under", "bad", "nounder", "empty", "nl", "hy", "long"])
+        m = rng.choice(["lead-", "trail-", "dbl-", "noletter", "under", "bad", "nounder", "empty", "nl", "hy", "long", "casemap", "casemap"])
         tags.append(m)
         if m == "lead-":
             body[0] = "-"
@@ -280,7 +296,16 @@ def gen_svc(rng, strict_hint):
         elif m == "under":
             body[rng.randrange(n)] = "_"
         elif m == "bad":
-            body[rng.randrange(n)] = rng.choice([" ", "é", "\n", "\x00", "\x7f", "/", "@", "[", "`", "{", ":", "Ｚ", "٣"])
+            body[rng.randrange(n)] = rng.choice([" ", "é", "\n", "\x00", "\x7f", "/", "@", "[", "`", "{", ":", "Ｚ", "٣"] + CASEMAP)
+        elif m == "casemap":
+            # one look-alike in an otherwise valid label, or a label whose ONLY "letter" is the look-alike
+            if rng.random() < 0.5:
+                body[rng.randrange(n)] = rng.choice(CASEMAP)
+            else:
+                body = [rng.choice(CASEMAP)] + [rng.choice("0123456789-")[0] for _ in range(rng.choice([0, 0, 1, 2]))]
+                if body[-1] == "-":
+                    body[-1] = "1"
+                n = len(body)
         elif m == "nl":
             body.append("\n")
         elif m == "long":
@@ -357,7 +382,7 @@ def gen_length_boundary(rng):
     return s, "len%d" % len(s)
 
 
-ALPH = list("abzAZ019-_. ") + ["\n", "\x00", "\x7f", "é", "日", "😀", "_tcp", "_udp", "local", "_sub", "._tcp.local.", ".local.", "._sub.", "--"]
+ALPH = list("abzAZ019-_. ") + CASEMAP[:4] + ["\n", "\x00", "\x7f", "é", "日", "😀", "_tcp", "_udp", "local", "_sub", "._tcp.local.", ".local.", "._sub.", "--"]
 
 
 def gen_random(rng):
@@ -369,7 +394,7 @@ def gen_random(rng):
 
 
 def exhaustive_names(maxlen):
-    alpha = ["a", "Z", "1", "-", "_", ".", "\n", "é", "\x7f"]
+    alpha = ["a", "Z", "1", "-", "_", ".", "\n", "é", "\x7f", "\u017f", "\u212a", "\u0130"]
     for n in range(0, maxlen + 1):
         for tup in itertools.product(alpha, repeat=n):
             lab = "".join(tup)
@@ -523,11 +548,11 @@ def name_obs_str(obs):
 
 
 def txt_line(items):
-    exp = expected_props(items)
-    cs = any(isinstance(k, str) or isinstance(v, str) for k, v in items)
-    toks = ["c19t", C.b01(cs), str(len(exp))]
-    for k, v in exp:
-        toks += [C.hx(k), C.b01(v is not None), C.hx(v or b"")]
+    """the dictionary with its Python types: per entry <key is str> <key bytes> <has value> <value is str> <value bytes>;
+    whether a str was involved (and hence what .properties returns) is computed by the model, not here"""
+    toks = ["c19t", str(len(items))]
+    for k, v in items:
+        toks += [C.b01(isinstance(k, str)), C.hx(to_bytes(k)), C.b01(v is not None), C.b01(isinstance(v, str)), C.hx(to_bytes(v) if v is not None else b"")]
     return " ".join(toks)
 
 
@@ -560,7 +585,7 @@ def classify_name_violation(s, strict, obs, want):
         return ("C19:name-raises-%s:%s" % (obs[1], cls),
                 "service_type_name(%r, strict=%s) raised %s, not BadTypeInNameException" % (s, strict, obs[1]))
     if obs[0] == "ok" and want is None:
-        cls = "newline-after-service-label" if "\n._" in s else "other"
+        cls = "newline-after-service-label" if "\n._" in s else ("non-ascii-in-service-label" if non_ascii_service_label(s) else "other")
         return ("C19:accepts-undocumented-form:%s" % cls,
                 "service_type_name(%r, strict=%s) returned %r but the name is not one of the documented forms" % (s, strict, obs[1]))
     if obs[0] == "err" and want is not None:
@@ -570,6 +595,13 @@ def classify_name_violation(s, strict, obs, want):
     return None
 
 
+def non_ascii_service_label(s):
+    for tr in PROTO_TRAILERS:
+        if s.endswith(tr):
+            return any(ord(ch) > 127 for ch in s[: len(s) - len(tr)].rpartition(".")[2])
+    return False
+
+
 def oracle_body_empty(s):
     for tr in PROTO_TRAILERS:
         if s.endswith(tr):
@@ -577,15 +609,48 @@ def oracle_body_empty(s):
     return False
 
 
+def wf_class(exp):
+    """(class, level) naming why a dictionary is outside RFC 6763 section 6.4 -- level "limit" (an item over 255 bytes: outside
+    the property's quantifier), "lib" (no reader can recover it), "rfc" (only a reader that follows section 6.4 to the letter
+    cannot) -- or None for a well-formed dictionary"""
+    keys = [k for k, _ in exp]
+    if any(len(k) + (0 if v is None else 1 + len(v)) > 255 for k, v in exp):
+        return ("item-over-255-bytes", "limit")
+    if any(b"=" in k for k in keys):
+        return ("key-contains-equals", "lib")
+    if len(set(keys)) != len(keys):
+        return ("keys-collide-after-encoding", "lib")
+    if any(k == b"" for k in keys):
+        return ("empty-key", "rfc")
+    if len({k.lower() for k in keys}) != len(keys):
+        return ("keys-differ-only-in-case", "rfc")
+    return None
+
+
+FINDING_WHAT = {
+    "key-contains-equals": "a key containing '=' cannot be carried by a TXT record: it is split at its first '=' when read back (RFC 6763 6.4 forbids such keys; the library does not reject them)",
+    "keys-collide-after-encoding": "a str key and a bytes key with the same UTF-8 bytes are two dictionary entries but one TXT attribute: only the first is read back",
+    "empty-key": "an item with an empty key is kept by the library but must be ignored by an RFC 6763 reader (6.4: missing key)",
+    "keys-differ-only-in-case": "keys that differ only in ASCII case are distinct for the library but one attribute for an RFC 6763 reader (6.4: keys are case-insensitive, first wins)",
+}
+
+
 def txt_violations(items, obs):
-    """stage O for one dictionary: list of (sig, what, case)"""
+    """stage O for one dictionary: list of (sig, what, case).
+
+    For every dictionary within the 255-byte item limit: `.text` is bytes and `.properties` (and the library's decode of
+    `.text`) hold bytes keys and bytes-or-None values.  For a well-formed one: `.properties`, the library's decode of
+    `.text` and the RFC 6763 reader all give back the dictionary.  A dictionary outside RFC 6763 section 6.4 cannot round-trip
+    (Lean: C19_txt_*_refuted); that is reported under one signature per class (known findings), nothing else is demanded
+    of the readers it defeats."""
     exp = expected_props(items)
     case = {"stream": "txt", "items": items_json(items)}
     out = []
-    if not wf_props(exp):
+    cls = wf_class(exp)
+    if cls and cls[1] == "limit":
         return out
     if obs[0] == "err":
-        return [("C19:txt-encode-raises:%s" % obs[1], "a well-formed properties dictionary raised %s" % obs[1], case)]
+        return [("C19:txt-encode-raises:%s" % obs[1], "a properties dictionary whose items fit in 255 bytes raised %s" % obs[1], case)]
     _, text, props, fresh = obs
     if type(text) is not bytes:
         return [("C19:text-not-bytes", ".text is %s, not bytes" % type(text).__name__, dict(case, text=text_hex(text)))]
@@ -599,6 +664,13 @@ def txt_violations(items, obs):
                     dict(case, got=props_str(props, False))))
     if not_bytes(fresh):
         out.append(("C19:decoded-properties-not-bytes", "decoding .text in the library yields non-bytes keys/values", dict(case, got=props_str(fresh, False))))
+    got = rfc_parse(text)
+    lib_ok = norm(props) == norm(exp) and norm(fresh) == norm(exp) and norm(props) == norm(fresh)
+    rfc_ok = got is not None and exact(got) == exact(exp) and norm(props) == norm(got)
+    if cls and cls[1] == "lib":
+        if not (lib_ok and rfc_ok):
+            out.append(("C19:txt-" + cls[0], FINDING_WHAT[cls[0]], dict(case, got=props_str(props, False), decoded=props_str(fresh, False))))
+        return out
     # .properties against the dictionary, against the library's own decode of the TXT bytes, and against the RFC reader
     if norm(props) != norm(exp):
         out.append(("C19:txt-properties-differ", ".properties does not give back the dictionary (same keys and values as bytes; empty value = no value)",
@@ -608,13 +680,15 @@ def txt_violations(items, obs):
                     dict(case, got=props_str(props, False), decoded=props_str(fresh, False))))
     if norm(fresh) != norm(exp):
         out.append(("C19:txt-library-decode-differs", "decoding .text in the library does not give back the dictionary", dict(case, got=props_str(fresh, False))))
-    if wf_props(exp, rfc=True):
-        got = rfc_parse(text)
-        if got is None or exact(got) != exact(exp):
-            out.append(("C19:txt-rfc6763-decode-differs", "an RFC 6763 section 6 reader does not recover the dictionary from .text", case))
-        if got is not None and norm(props) != norm(got):
-            out.append(("C19:properties-disagree-with-rfc6763", ".properties differs from what an RFC 6763 section 6 reader finds in .text",
-                        dict(case, got=props_str(props, False), rfc=props_str(got, False))))
+    if cls and cls[1] == "rfc":
+        if not rfc_ok:
+            out.append(("C19:txt-" + cls[0], FINDING_WHAT[cls[0]], dict(case, rfc="bad" if got is None else props_str(got, False))))
+        return out
+    if got is None or exact(got) != exact(exp):
+        out.append(("C19:txt-rfc6763-decode-differs", "an RFC 6763 section 6 reader does not recover the dictionary from .text", case))
+    if got is not None and norm(props) != norm(got):
+        out.append(("C19:properties-disagree-with-rfc6763", ".properties differs from what an RFC 6763 section 6 reader finds in .text",
+                    dict(case, got=props_str(props, False), rfc=props_str(got, False))))
     return out
 
 
@@ -628,7 +702,7 @@ def case_size(case):
 def run(ctx):
     res = C.Result("C19")
     seed, tier = ctx["seed"], ctx["tier"]
-    mult = 3 if ctx["widened"] else 1  # the rebuild after a tree change already costs ~45 s of the 120 s cap
+    mult = 2 if ctx["widened"] else 1  # a tree change already costs 45-60 s of rebuild out of the 120 s cap
     B = lambda q, t: C.Budget(tier, q, t).n * mult  # noqa: E731
 
     # ---------------- name stream
@@ -639,6 +713,8 @@ def run(ctx):
     fixed = ["_http._tcp.local.", "foo._http._tcp.local.", "_printer._sub._http._tcp.local.", "_._tcp.local.", "x._._tcp.local.", "_ab\n._tcp.local.",
              "a._ab\n._udp.local.", ".local.", "local.", "", ".", "_tcp.local.", "._tcp.local.", "_sub._x._tcp.local.", "._sub._x._tcp.local.",
              ".a._x._tcp.local.", "a..b._sub._x._tcp.local.", "_x._tcp.local.\n", "_sub.local.", "x._sub.local.", "_x__y._tcp.local.",
+             "_\u212a._tcp.local.", "_a\u017f._tcp.local.", "_\u017f._udp.local.", "x._\u0130._tcp.local.", "_\u0131-1._tcp.local.", "_a\u00df._tcp.local.",
+             "_\ufb01._tcp.local.", "_a\u00b2._tcp.local.", "_\uff21._tcp.local.", "s._sub._\u212a1._udp.local.",
              "_" + "a" * 243 + "._tcp.local.", "_" + "a" * 244 + "._tcp.local.", "_-._tcp.local.", "_a-._tcp.local.", "_1._tcp.local.", "_1-2._tcp.local."]
     for s in fixed:
         names.append((s, True, "fixed"))
@@ -651,6 +727,18 @@ def run(ctx):
     for s in ["\ud800._http._tcp.local.", "a\udfffb._sub._x._udp.local.", "_\ud800._tcp.local.", "\udc00.local.", "\ud83d", "x._a\ud800._tcp.local."]:
         names.append((s, True, "surrogate"))
         names.append((s, False, "surrogate"))
+    # lone surrogates anywhere in grammar-generated names (stage O only: not representable in the model): in the instance,
+    # the <sub> part, after a 62-byte prefix, in the service label, in the trailer, in the bare .local. form
+    rng = C.rng_for(seed, "c19", "surrogate")
+    for _ in range(B(3000, 60000)):
+        s, tag = gen_grammar(rng) if rng.random() < 0.85 else gen_length_boundary(rng)
+        r = rng.random()
+        if r < 0.25:
+            s = inst_of_bytes(rng, rng.choice([58, 59, 60, 61, 62, 63])) + "." + s.lstrip(".")
+        for _k in range(rng.choice([1, 1, 2])):
+            i = rng.randrange(len(s) + 1)
+            s = s[:i] + rng.choice(["\ud800", "\udbff", "\udc00", "\udfff"]) + s[i:]
+        names.append((s[:300], rng.random() < 0.5, "surrogate"))
     rng = C.rng_for(seed, "c19", "grammar")
     for _ in range(B(150000, 2400000)):
         s, tag = gen_grammar(rng)
@@ -726,7 +814,7 @@ def run(ctx):
         except C.DriverUnavailable as ex:
             res.notes.append("driver unavailable: %s" % ex)
 
-    res.rule = ("names: corpus + hand-picked + EXHAUSTIVE service labels of length <= 3 over {a,Z,1,-,_,.,\\n,e-acute,DEL} in 7 carrier forms x both strict modes "
+    res.rule = ("names: corpus + hand-picked + EXHAUSTIVE service labels of length <= 3 over {a,Z,1,-,_,.,\\n,e-acute,DEL,U+017F,U+212A,U+0130} in 7 carrier forms x both strict modes "
                 "+ grammar-generated (valid skeleton, 0-3 rule violations of the service label, instance/subtype prefix with byte lengths 61-66 in mixed-width "
                 "characters, control characters, dots, _sub variants, 17 odd trailers) + total-length boundary 254-258/300 + random strings <= 300; "
                 "constructor type/name pairs; property dictionaries (str/bytes keys, str/bytes/None/empty values, item lengths 254-256, colliding, "
@@ -758,6 +846,17 @@ def run(ctx):
         if len(res.samples) < 3 and tag.startswith("g:") and obs[0] == "ok":
             res.sample({"name": s, "strict": strict, "type": obs[1]})
     assert mi == n_name
+    # the default is strict=True (name.py:39; the model has no default, every caller in the library relies on it): compared
+    # as correspondence on the names where the two modes differ
+    ndef = 0
+    for s, strict, tag in names:
+        if ndef >= 400 or has_surrogate(s) or (oracle_type(s, True) is None) == (oracle_type(s, False) is None):
+            continue
+        ndef += 1
+        res.evaluations += 1
+        d, t = impl_name_default(s), impl_name(s, True)
+        if d != t:
+            res.disagree("default-strict", {"stream": "name", "name": s, "strict": True}, list(d), list(t))
     for sig in sorted(best_v, key=lambda k: (has_surrogate(best_v[k][2]["name"]), len(best_v[k][2]["name"]), k)):  # text inputs first
         res.violate(*best_v[sig])
 
@@ -805,7 +904,7 @@ def run(ctx):
         for v in txt_violations(items, obs):
             res.count("txt-violations")
             # per signature keep the smallest case, preferring dictionaries that are well-formed for both readers
-            size = case_size(v[2]) + (0 if wf_props(exp, True) else 10000)
+            size = case_size(v[2]) + (0 if wf_class(exp) is None else 10000)
             if v[0] not in best_t or size < best_t[v[0]][0]:
                 best_t[v[0]] = (size, v)
         if model is not None:
@@ -839,7 +938,7 @@ def run(ctx):
             if m != mine:
                 res.disagree("dec", case, mine, m)
     res.exhaustive = False
-    res.notes.append("exhaustive sub-stream: %d names (all service labels of length <= %d over a 9-character alphabet, 7 carrier forms) x 2 modes" % (len(ex), ex_len))
+    res.notes.append("exhaustive sub-stream: %d names (all service labels of length <= %d over a 12-character alphabet incl. U+017F, U+212A, U+0130, 7 carrier forms) x 2 modes" % (len(ex), ex_len))
     return res
 
 
